@@ -12,6 +12,8 @@ import (
 	"encoding/json"
 	"fmt"
 	"sort"
+	"strconv"
+	"strings"
 
 	corev1 "k8s.io/api/core/v1"
 	kerrors "k8s.io/apimachinery/pkg/api/errors"
@@ -74,10 +76,44 @@ type c09Scn struct {
 	// propagate: from the XR's secret (`src`) to the claim's (`dest`)
 	FromWants bool      `json:"fromWants"`
 	Src       c09Secret `json:"src"`
+	// status.connectionDetails.lastPublishedTime of the claim (when it last propagated) and of the
+	// XR (when it last published): 0 = unset, n = n seconds after a fixed instant. The propagator
+	// does not read them: whatever they say, it compares the two secrets.
+	ToTime   int `json:"toTime,omitempty"`
+	FromTime int `json:"fromTime,omitempty"`
 	// extract
 	Cfgs     []c09Extract `json:"cfgs"`
 	ConnData []c09KV      `json:"connData"`
 	Fields   []c09KV      `json:"fields"` // spec.<k> = v on the composed resource
+	// spec.<k> fields that are NOT strings (fromFieldPath falls back from GetString to
+	// GetValue + json.Marshal): kind int | bool | strs
+	Typed []c09Typed `json:"typed,omitempty"`
+}
+
+type c09Typed struct {
+	K    string   `json:"k"`
+	Kind string   `json:"kind"`
+	N    int64    `json:"n"`
+	B    bool     `json:"b"`
+	L    []string `json:"l"`
+}
+
+// c09TypedText: the JSON text of a typed field, written out by hand (the monitor's reference).
+func c09TypedText(t c09Typed) string {
+	switch t.Kind {
+	case "int":
+		return strconv.FormatInt(t.N, 10)
+	case "bool":
+		if t.B {
+			return "true"
+		}
+		return "false"
+	}
+	q := []string{}
+	for _, x := range t.L {
+		q = append(q, `"`+x+`"`)
+	}
+	return "[" + strings.Join(q, ",") + "]"
 }
 
 type c09Obs struct {
@@ -301,6 +337,7 @@ func c09Run(s c09Scn) (c09Obs, []Mon) {
 		if s.Wants {
 			cm.SetWriteConnectionSecretToReference(&xpv1.LocalSecretReference{Name: "dest"})
 		}
+		c09SetTimes(cm, xr, s.ToTime, s.FromTime)
 		c09Seed(st, "xrns", "src", s.Src, c09OwnerUID)
 		c09Seed(st, "ns", "dest", s.Dest, c09OwnerUID)
 		miss := false
@@ -352,6 +389,14 @@ func c09Run(s c09Scn) (c09Obs, []Mon) {
 			if i > 0 && (w > 0 || p) && obs.Errs[i-1] == false && obs.Published[i-1] {
 				mon("C09:rewrote-identical", "second propagation of identical data wrote again")
 			}
+			// a propagation that reports no error leaves the claim's secret an exact copy of the
+			// XR's - also when it reports that there was nothing to do
+			if err == nil && s.Wants && s.FromWants && srcOK && !swapped {
+				d := c09View(st, "ns", "dest", c09OwnerUID)
+				if !d.Present || !c09SameData(d.Data, c09KVs(c09Map(s.Src.Data))) {
+					mon("C09:claim-secret-stale", fmt.Sprintf("PropagateConnection returned (%v, nil) but the claim's secret (present=%v) is not a copy of its XR's secret (claim lastPublishedTime=%d, XR lastPublishedTime=%d)", p, d.Present, s.ToTime, s.FromTime))
+				}
+			}
 			if swapped {
 				for _, kv := range c09View(st, "ns", "dest", c09OwnerUID).Data {
 					if kv.K == c09SwapKey && kv.V == c09SwapVal {
@@ -374,6 +419,20 @@ func c09Run(s c09Scn) (c09Obs, []Mon) {
 		spec := map[string]any{}
 		for _, f := range s.Fields {
 			spec[f.K] = f.V
+		}
+		for _, t := range s.Typed {
+			switch t.Kind {
+			case "int":
+				spec[t.K] = t.N
+			case "bool":
+				spec[t.K] = t.B
+			default:
+				l := []any{}
+				for _, x := range t.L {
+					l = append(l, x)
+				}
+				spec[t.K] = l
+			}
 		}
 		cd.Object["spec"] = spec
 		before := mustJSON(cd.Object)
@@ -427,6 +486,9 @@ func c09Run(s c09Scn) (c09Obs, []Mon) {
 					for _, f := range s.Fields {
 						sourced = sourced || (c.Path == "spec."+f.K && f.V == string(v))
 					}
+					for _, t := range s.Typed {
+						sourced = sourced || (c.Path == "spec."+t.K && c09TypedText(t) == string(v))
+					}
 				}
 			}
 			if !sourced {
@@ -438,6 +500,16 @@ func c09Run(s c09Scn) (c09Obs, []Mon) {
 		}
 	}
 	return obs, mons
+}
+
+// c09SetTimes sets status.connectionDetails.lastPublishedTime of a claim and its XR (0 = unset).
+func c09SetTimes(cm *uclaim.Unstructured, xr *ucomposite.Unstructured, to, from int) {
+	if to > 0 {
+		cm.SetConnectionDetailsLastPublishedTime(&metav1.Time{Time: metav1.Unix(1700000000+int64(to), 0).Time})
+	}
+	if from > 0 {
+		xr.SetConnectionDetailsLastPublishedTime(&metav1.Time{Time: metav1.Unix(1700000000+int64(from), 0).Time})
+	}
 }
 
 func c09ViewFromSnapshot(snap map[string]string, _ *runtime.Scheme) []c09KV {
@@ -497,6 +569,9 @@ func c09Gen(r *Rng) c09Scn {
 		s.Dest = c09GenSecret(r, keys)
 		s.Miss = r.Chance(1, 6)
 		s.Swap = r.Chance(1, 4)
+		if r.Bool() {
+			s.ToTime, s.FromTime = r.Intn(4), r.Intn(4)
+		}
 	case "extract":
 		n := r.Range(0, 4)
 		// half of the streams are well-formed lists of 2-6 configs (names repeat: a later config
@@ -514,7 +589,7 @@ func c09Gen(r *Rng) c09Scn {
 				case 1, 2:
 					c.Type, c.Key = "FromConnectionSecretKey", Pick(r, []string{"user", "pass", "missing"})
 				case 3:
-					c.Type, c.Path = "FromFieldPath", Pick(r, []string{"spec.f1", "spec.f2", "spec.nope", "spec[", "metadata.name"})
+					c.Type, c.Path = "FromFieldPath", Pick(r, []string{"spec.f1", "spec.f2", "spec.nope", "spec[", "metadata.name", "spec.port", "spec.tls", "spec.hosts"})
 				case 4:
 					c.Type = "Unknown"
 				}
@@ -538,7 +613,7 @@ func c09Gen(r *Rng) c09Scn {
 				c.Key = Pick(r, []string{"user", "pass", "missing"})
 			}
 			if r.Chance(3, 4) {
-				c.Path = Pick(r, []string{"spec.f1", "spec.f2", "spec.nope", "spec[", "metadata.name"})
+				c.Path = Pick(r, []string{"spec.f1", "spec.f2", "spec.nope", "spec[", "metadata.name", "spec.port", "spec.hosts"})
 			}
 			if r.Chance(3, 4) {
 				c.HasV, c.Value = true, Pick(r, []string{"fixed", ""})
@@ -558,6 +633,16 @@ func c09Gen(r *Rng) c09Scn {
 				s.Fields = append(s.Fields, c09KV{K: k, V: Pick(r, []string{"x", "y"})})
 			}
 		}
+		// fields that are not strings: a port, a flag, a list of endpoints
+		if r.Chance(2, 3) {
+			s.Typed = append(s.Typed, c09Typed{K: "port", Kind: "int", N: int64(Pick(r, []int{5432, 0, -1, 65535})), L: []string{}})
+		}
+		if r.Chance(1, 2) {
+			s.Typed = append(s.Typed, c09Typed{K: "tls", Kind: "bool", B: r.Bool(), L: []string{}})
+		}
+		if r.Chance(1, 2) {
+			s.Typed = append(s.Typed, c09Typed{K: "hosts", Kind: "strs", L: Pick(r, [][]string{{}, {"a"}, {"a", "b-1.example"}})})
+		}
 	}
 	return s
 }
@@ -575,6 +660,12 @@ func init() {
 			if json.Unmarshal(raw, &ws) == nil && ws.Op == "world" {
 				wo, wm := c09WorldRun(ws)
 				c.Emit(ws, wo, wm, "corpus")
+				continue
+			}
+			var cs c09ClaimScn
+			if json.Unmarshal(raw, &cs) == nil && cs.Op == "claimrec" {
+				co, cmn := c09ClaimRun(cs)
+				c.Emit(cs, co, cmn, "corpus")
 				continue
 			}
 			var fs c09FlowScn
@@ -601,6 +692,12 @@ func init() {
 				ws := c09WorldGen(c.Rng)
 				wo, wm := c09WorldRun(ws)
 				c.Emit(ws, wo, wm, c09WorldCls(ws, wo))
+				continue
+			case 4, 10:
+				// the real claim reconciler (default options) around the propagator: live and deleted claims
+				cs := c09ClaimGen(c.Rng)
+				co, cmn := c09ClaimRun(cs)
+				c.Emit(cs, co, cmn, c09ClaimCls(cs, co))
 				continue
 			case 2, 8, 11:
 				// connection details through the real composers, several XRs, one reconciler
